@@ -361,6 +361,16 @@ def _py_diff_tabulate(ctx) -> bool | None:
             D(2021, 5, 31, 12, 0, 0, 1), D(2021, 12, 31, 23, 59, 59, 999999), D(2022, 1, 1, 0, 0, 0), D(2019, 12, 31, 12, 0, 0), D(2024, 2, 29, 12, 0, 0),
             D(2025, 2, 28, 12, 0, 0), D(2023, 8, 31, 0, 0, 1), D(2023, 9, 30, 0, 0, 0), D(2000, 2, 29, 1, 2, 3, 4), D(1999, 11, 30, 4, 3, 2, 1)]
 
+    if ctx.tier == "thorough":
+        # every month end, the days around it and mid-month days of two years (one leap), at four times of day
+        extra = []
+        for y in (2023, 2024):
+            for mo in range(1, 13):
+                last = calendar.monthrange(y, mo)[1]
+                for dd, tt in ((1, (0, 0, 0, 0)), (15, (12, 0, 0, 0)), (last - 1, (23, 59, 59, 999999)), (last, (6, 30, 0, 1)), (last, (23, 59, 59, 999999)), (28, (0, 0, 0, 1))):
+                    extra.append(D(y, mo, dd, *tt))
+        base = base + extra
+
     def cal(w, y, mo, d, h=0, mi=0, s_=0, us=0):
         i = w.year * 12 + w.month - 1 + y * 12 + mo
         yy, mm = divmod(i, 12)
